@@ -32,11 +32,19 @@ type export struct {
 	file int
 }
 
-// GenXProg draws one valid multi-file / multi-module program of the given layout.  cycle: the
-// program is meant for `-module-cycle` (module names may repeat across files).
-func GenXProg(rng *rand.Rand, id int, shape string, cycle bool) *Prog {
+// GenXProg draws one valid multi-file / multi-module program of the given layout.
+// mode "": every module has its own name.  mode "cycle": the program is meant for `-module-cycle`
+// (the included files declare one common module name, a different package per file).  mode "split":
+// WITHOUT the flag all files declare one common module: ONE module (one Go package) spread over
+// several IDL files joined by #include, referring to each other's types qualified and unqualified.
+func GenXProg(rng *rand.Rand, id int, shape string, mode string) *Prog {
 	g := &gen{rng: rng, feats: map[string]int{}}
+	cycle := mode == "cycle"
 	p := &Prog{Feats: g.feats, Edge: "x-" + shape, Cycle: cycle}
+	if mode == "split" {
+		p.Edge = "x-split-" + shape
+		g.feat("samemodule:split-files:" + shape)
+	}
 	layout := xShapes[shape]
 	files := make([]*File, len(layout))
 	exports := make([][]export, len(layout)) // own exports of each file
@@ -90,16 +98,54 @@ func GenXProg(rng *rand.Rand, id int, shape string, cycle bool) *Prog {
 			if g.rng.Intn(3) == 0 {
 				name = fmt.Sprintf("xm%d%c%d", id, 'a'+i, k)
 			}
+			if mode == "split" && k == 0 {
+				// one module spread over all files
+				name = fmt.Sprintf("Xs%d", id)
+				g.feat("samemodule:split-files:file")
+			}
 			if cycle && i > 0 && k == 0 {
 				// the same module name in different files (only legal with -module-cycle)
 				name = fmt.Sprintf("Xc%d", id)
 				g.feat("cycle:same-module-different-file")
 			}
-			m := g.module(name, sc, 1+g.rng.Intn(3))
+			msc := sc
+			mvis := visible
+			if mode == "split" && i > 0 && k > 0 {
+				// a further module of an included file must not depend on the split module: the part
+				// of the split module in an including file may depend on it (Go packages are acyclic)
+				split := fmt.Sprintf("Xs%d", id)
+				msc = &scope{emod: map[*Decl]string{}, eproto: map[*Decl]string{}}
+				mvis = nil
+				for _, ex := range visible {
+					if ex.mod == split {
+						continue
+					}
+					mvis = append(mvis, ex)
+					msc.emod[ex.d] = ex.mod
+					if ex.d.Kind == "enum" {
+						msc.enums = append(msc.enums, ex.d)
+					} else {
+						msc.structs = append(msc.structs, ex.d)
+					}
+				}
+			}
+			m := g.module(name, msc, 1+g.rng.Intn(3))
 			// every module exports at least one enum and one struct for the modules above it
-			g.ensureBasics(m, sc)
-			if len(visible) > 0 {
-				g.xrefs(m, sc, visible, i, direct, files, f.Name, cycle)
+			g.ensureBasics(m, msc)
+			if len(mvis) > 0 {
+				g.xrefs(m, msc, mvis, i, direct, files, f.Name, cycle)
+			}
+			if msc != sc {
+				// what the module declared becomes visible to the following ones
+				for _, d := range m.Decls {
+					if d.Kind == "enum" {
+						sc.enums = append(sc.enums, d)
+						sc.emod[d] = name
+					} else if d.Kind == "struct" {
+						sc.structs = append(sc.structs, d)
+						sc.emod[d] = name
+					}
+				}
 			}
 			f.Modules = append(f.Modules, m)
 			for _, d := range m.Decls {
@@ -174,8 +220,27 @@ func (g *gen) xrefs(m *Module, sc *scope, visible []export, file int, direct map
 	if len(enums) == 0 || len(structs) == 0 {
 		return
 	}
+	sameMod := false // does the member under construction refer to this module's part in another file?
+	qual := func(ex export) bool {
+		if ex.mod != m.Name || cycle {
+			return true
+		}
+		sameMod = true
+		if g.rng.Intn(2) == 0 {
+			g.feat("samemodule:split-files:ref-qualified")
+			return true
+		}
+		g.feat("samemodule:split-files:ref-unqualified")
+		return false
+	}
 	how := func(ex export) {
 		switch {
+		case ex.mod == m.Name && !cycle:
+			if direct[ex.file] {
+				g.feat("samemodule:split-files:via-include-direct")
+			} else {
+				g.feat("samemodule:split-files:via-include-transitive")
+			}
 		case ex.file == file:
 			g.feat("xmodule:same-file-other-module")
 		case direct[ex.file]:
@@ -187,12 +252,12 @@ func (g *gen) xrefs(m *Module, sc *scope, visible []export, file int, direct map
 	pickE := func() (export, *Ty) {
 		ex := enums[g.rng.Intn(len(enums))]
 		how(ex)
-		return ex, &Ty{Kind: "named", Mod: ex.mod, Name: ex.d.Name, IsEnum: true, Qual: true, Proto: protoOf(ex)}
+		return ex, &Ty{Kind: "named", Mod: ex.mod, Name: ex.d.Name, IsEnum: true, Qual: qual(ex), Proto: protoOf(ex)}
 	}
 	pickS := func() *Ty {
 		ex := structs[g.rng.Intn(len(structs))]
 		how(ex)
-		return &Ty{Kind: "named", Mod: ex.mod, Name: ex.d.Name, Qual: true, Proto: protoOf(ex)}
+		return &Ty{Kind: "named", Mod: ex.mod, Name: ex.d.Name, Qual: qual(ex), Proto: protoOf(ex)}
 	}
 	str := &Ty{Kind: "prim", Prim: "string"}
 	i32 := &Ty{Kind: "prim", Prim: "int"}
@@ -205,6 +270,10 @@ func (g *gen) xrefs(m *Module, sc *scope, visible []export, file int, direct map
 		}
 		st.Fields = append(st.Fields, f)
 		tag += 1 + g.rng.Intn(3)
+		if sameMod && !cycle {
+			feat = "samemodule:split-files:" + feat[len("xmodule:"):]
+		}
+		sameMod = false
 		g.feat(feat)
 	}
 	add(true, pickS(), "", "xmodule:struct-member")
@@ -242,8 +311,13 @@ func (g *gen) xrefs(m *Module, sc *scope, visible []export, file int, direct map
 		{Out: true, Ty: pickS(), Name: g.name("p", true)},
 		{Out: false, Ty: &Ty{Kind: "named", Mod: m.Name, Name: st.Name, Proto: sc.proto}, Name: g.name("p", true)}}}
 	itf.Funcs = []Func{f1, f2}
-	for _, c := range []string{"xmodule:param-in", "xmodule:param-out", "xmodule:ret", "func:ret-value", "decl:interface"} {
+	for _, c := range []string{"xmodule:param-in", "xmodule:param-out", "xmodule:ret"} {
+		if sameMod && !cycle {
+			c = "samemodule:split-files:" + c[len("xmodule:"):]
+		}
 		g.feat(c)
 	}
+	g.feat("func:ret-value")
+	g.feat("decl:interface")
 	m.Decls = append(m.Decls, itf)
 }
